@@ -22,11 +22,32 @@ cp "$SRC/demo_test.go" zz_seeded_demo_test.go
 if go test -tags verif -count=1 -run 'TestSeeded' . >/tmp/vs-$$.log 2>&1; then res "REJECT demo passes with change"; exit 3; fi
 rm -f /tmp/vs-$$.log
 cd /verif
+if [ "${SEED_OVERLAY:-0}" = "1" ] && [ "$ID" != "C10" ] && [ "$ID" != "C11" ]; then
+  # interim mode (used while another run occupies /repo and /verif/.bin/check): the patched files of
+  # the scratch worktree are laid over /repo's with `go build -overlay`; /repo itself is not touched.
+  rm -f "$WT/zz_seeded_demo_test.go"
+  python3 - "$WT" > /tmp/vs-$$.overlay.json <<'PY'
+import json,subprocess,sys
+wt=sys.argv[1]
+names=subprocess.run(["git","-C",wt,"status","--porcelain"],capture_output=True,text=True).stdout.split("\n")
+rep={}
+for l in names:
+    if l.strip():
+        n=l[3:].strip()
+        rep["/repo/"+n]=wt+"/"+n
+print(json.dumps({"Replace":rep}))
+PY
+  export GOCACHE=/verif/.cache/go-build CGO_ENABLED=1
+  (cd /verif/harness && go build -tags verif -overlay /tmp/vs-$$.overlay.json -o /verif/.bin/check-seed-$$ . ) || { res "overlay build failed"; exit 2; }
+  timeout 1500 /verif/.bin/check-seed-$$ -prop "$ID" -tier "$TIER" > /tmp/vs-$$.out 2>&1; RC=$?
+  rm -f /verif/.bin/check-seed-$$ /tmp/vs-$$.overlay.json
+else
 if [ -n "$(git -C /repo status --porcelain)" ]; then res "ABORT /repo not clean"; exit 2; fi
 git -C /repo apply "$SRC/patch.diff" || exit 2
 trap 'git -C /repo checkout -- . ; cleanup' EXIT INT TERM
 timeout 1500 ./run.sh "$ID" "$TIER" > /tmp/vs-$$.out 2>&1; RC=$?
 git -C /repo checkout -- . 
+fi
 NV=$(grep -c '^VIOLATION' /tmp/vs-$$.out)
 FIRST=$(grep -A2 '^VIOLATION' /tmp/vs-$$.out | head -3 | tr '\n' ' ' | cut -c1-400)
 SUMMARY=$(tail -1 /tmp/vs-$$.out)
